@@ -10,6 +10,7 @@ CONSTANTS
   ExtNames = {"a"}
   MaxFiles = {2, 1000000}
   FaultSet <- FaultsQuick
+  Restarts = {"keep"}
   WhatIf = "offered_hash_and_merge"
 SPECIFICATION Spec
 INVARIANT NoViolation
